@@ -25,6 +25,7 @@ func TestMain(m *testing.M) { drv.Main(m) }
 type Case struct {
 	Main     map[string]string `json:"main"`             // ext -> text
 	Imported map[string]string `json:"imported,omitempty"` // ext -> text of imp.<ext>
+	Second   string            `json:"second,omitempty"`   // text of impdir/second.yaml, imported (as a directory) by imp.<ext>
 	Tasks    []string          `json:"tasks"`
 	Pipes    []string          `json:"pipes"`
 	Features []string          `json:"features"`
@@ -89,6 +90,10 @@ func run(c Case, dir string) error {
 		os.WriteFile(filepath.Join(dir, "c."+ext), []byte(strings.ReplaceAll(c.Main[ext], "@WORK@", filepath.Join(dir, "work"))), 0o644)
 		if c.Imported != nil {
 			os.WriteFile(filepath.Join(dir, "imp."+ext), []byte(strings.ReplaceAll(c.Imported[ext], "@WORK@", filepath.Join(dir, "work"))), 0o644)
+		}
+		if c.Second != "" {
+			os.MkdirAll(filepath.Join(dir, "impdir"), 0o755)
+			os.WriteFile(filepath.Join(dir, "impdir", "second.yaml"), []byte(strings.ReplaceAll(c.Second, "@WORK@", filepath.Join(dir, "work"))), 0o644)
 		}
 	}
 	env := cli.Env{Bin: drv.Bin(), Dir: dir, Home: filepath.Join(dir, "home"), Extra: []string{"K1=parent1", "V=parentV"}}
@@ -156,6 +161,15 @@ func genCase(rt *rapid.T) Case {
 		moved := tm[len(tm)-1]
 		cfg = cfg.Set("tasks", tm[:len(tm)-1])
 		impCfg := gen.Map{{K: "tasks", V: gen.Map{moved}}}
+		if len(tm) >= 3 && rapid.Bool().Draw(rt, "second-level-import") {
+			// the imported file imports a directory in turn (directory imports read *.yaml only, whatever
+			// the format of the importing file)
+			second := tm[len(tm)-2]
+			cfg = cfg.Set("tasks", tm[:len(tm)-2])
+			c.Second = gen.YAML(gen.Map{{K: "tasks", V: gen.Map{second}}})
+			impCfg = append(gen.Map{{K: "import", V: gen.List{"impdir"}}}, impCfg...)
+			c.Features = append(c.Features, "two-level-import")
+		}
 		c.Imported = emitAll(impCfg)
 		c.Main = map[string]string{}
 		for _, ext := range exts {
